@@ -57,6 +57,16 @@ CLAIMS = {
         text='Static: each of the 6 fields written by _fd_low_rank_pack is read by _fd_low_rank_unpack from the same region and the regions are pairwise disjoint for all r >= 1, d >= r+3; wrappers route fields correctly; buffer (d,|r|+2) with no pinned dtype; fields must be start-anchored to survive the pad/slice round trip of the replicated update (known finding F18 for eigvals / has_zeros); _precond_dim < d <=> _should_compress on all 6 abstract states and the signed configured rank reaches predicate and both special roots; the compressed application is c(g - gVV^T) + (gV e)V^T with the unpacked flag alone selecting the unchanged gradient; _low_rank_root keeps the first |r| of the rolled (negative rank) or flipped spectrum and averages the rest over the unpadded dims. Necessary conditions of C10.',
         note='Trusted: numpy indexing semantics. Undecided: numerical agreement with the dense matrix; eigendecomposition accuracy.',
         design='4/C10'),
+    'C11': dict(
+        technique='value-graph normal forms of quantize / to_float / from_float_value per (dtype, extract_diagonal) valuation; constant, rounding-primitive, operand-order (overflow) and axis rules; writer/reader dispatch agreement; re-wrap call-site lint',
+        text='Static: bucket counts 127 / 32767; the integer cast is applied to jnp.round of (x [- diag]) / where(b > 0, b, 1) with the input itself as numerator (no pre-scaling that could overflow) and the axis-0 bucket max|x|/count re-expanded on axis 0; dequantisation is payload * bucket (+ diag of the stored diagonal, exactly); writer and reader handle the same dtype set and other dtypes are rejected; from_float_value records payload/diagonal/bucket/dtype/flag/list(shape) and the empty case; Distributed Shampoo re-wraps raw leaves with the flag used to quantise. Necessary conditions of C11.',
+        note='Trusted: jnp.round = round-to-nearest-even; integral floats cast exactly. Undecided: the half-bucket bound / idempotence over all float32 magnitudes (subnormal buckets flush to zero on this backend).',
+        design='4/C11'),
+    'C12': dict(
+        technique='inductive cover invariant discharged by structural facts on the value graph of sm3.update_fn (order-fact lattice EXACT <= UB <= COVER(i)): reshape views, min/max combine, non-negative affine step with squared gradient, plain max over the complementary axes, same gradient / same statistic in the step',
+        text='Static, for every valuation of (rank 1?, normalize_grads, beta2 == 1, weight decay, beta1 == 1): accumulators are combined through one-hot reshapes by elementwise min (or max) into a pointwise bound, the statistic is beta2*bound + w*g^2 with w = 1-beta2 (1 when beta2 == 1), each new accumulator is a plain jnp.max of that statistic over exactly the other axes (rank 1: the statistic itself), the step preconditions the same (normalised) gradient by 1/sqrt(statistic + eps) before momentum, weight decay and -lr, beta2 == 1 gives monotone accumulators, accumulators are float32 zeros per axis. These discharge the induction step of the cover invariant and the AdaGrad/RMSProp step bound.',
+        note='Trusted: beta2 in (0,1]; plain jnp.max is the true maximum. Undecided: exact equality with AdaGrad for rank 1 under int8 momentum quantisation (numerical).',
+        design='4/C12'),
 }
 
 NOT_BUILT_REASON = 'checker for this property not built yet (build phase in progress; see DESIGN.md section 9)'
